@@ -457,3 +457,313 @@ Section Session.
     cbv zeta in Hc. unfold frame_ok. apply Hc.
   Qed.
 End Session.
+
+(* ================================================================== the round trip, both sides discharged *)
+From LZ4V Require Import Proofs.FileDecInst.
+
+Section RoundTripOpen.
+  Variable cst : Type.
+  Variable cst0 : cst.
+  Variable cBegin : cst -> option SZ.prefs -> Z -> fres (list byte) * cst.
+  Variable cUpdate : cst -> list byte -> Z -> fres (list byte) * cst.
+  Variable cEnd : cst -> Z -> fres (list byte) * cst.
+
+  (* the write side of Proofs/FileProofs.v from the bounded contract *)
+  Lemma write_session_open_ok : comp_contract_open cst cst0 cBegin cUpdate cEnd ->
+    forall po mw bufs, maxWrite_of po = Some mw -> FileProofs.csize_ok po (concat bufs) ->
+    prefs_wf po -> Z.of_nat (length (concat bufs)) < U64 ->
+    exists file,
+      write_session cst cst0 cBegin cUpdate cEnd po bufs = (FOk (map (fun b => FOk (length b)) bufs), file) /\
+      frame_ok file (concat bufs).
+  Proof.
+    intros Hc po mw bufs Hmw Hcs Hwf HX.
+    pose proof (maxWrite_pos po mw Hmw) as Hpos.
+    destruct (all_chunks_spec mw bufs Hpos) as [Hcat Hall].
+    destruct (Hc po mw (all_chunks mw bufs) Hmw Hall) as (hdr & s1 & outs & s2 & tail & s3 & Hb & Hu & He & Hf);
+      try (rewrite Hcat; assumption); try assumption.
+    exists (hdr ++ concat outs ++ tail). rewrite Hcat in Hf. split; [|exact Hf].
+    unfold write_session, writeOpen. fold (maxWrite_of po). rewrite Hmw, Hb.
+    rewrite (write_all_run cst cUpdate bufs _ ([] ++ hdr) outs s2); cbn [w_maxWrite w_dstMax w_err w_c]; auto.
+    unfold writeClose. cbn [w_err w_c w_dstMax]. rewrite He. rewrite app_nil_l, app_assoc. reflexivity.
+  Qed.
+
+  (* C20_roundtrip from the two contracts as lz4file.c uses them *)
+  Theorem roundtrip_open2 : forall dst dst0 dGetFrameInfo dDecompress dpos,
+    comp_contract_open cst cst0 cBegin cUpdate cEnd -> comp_writes_bytes cst cst0 cBegin cUpdate cEnd ->
+    dec_contract_open dst dst0 dGetFrameInfo dDecompress dpos ->
+    forall po mw bufs sizes junk,
+      maxWrite_of po = Some mw -> FileProofs.csize_ok po (concat bufs) -> prefs_wf po ->
+      Z.of_nat (length (concat bufs)) < U64 -> bytes_ok (concat bufs) = true ->
+      exists file,
+        write_session cst cst0 cBegin cUpdate cEnd po bufs = (FOk (map (fun b => FOk (length b)) bufs), file) /\
+        frame_ok file (concat bufs) /\
+        read_session dst dst0 dGetFrameInfo dDecompress true junk file sizes = FOk (chop (concat bufs) sizes).
+  Proof.
+    intros dst dst0 dGetFrameInfo dDecompress dpos Hc Hcb Hd po mw bufs sizes junk Hmw Hcs Hwf HX Hbb.
+    destruct (write_session_open_ok Hc po mw bufs Hmw Hcs Hwf HX) as (file & Hw & Hf).
+    exists file. split; [exact Hw|]. split; [exact Hf|].
+    apply (read_session_open dst dst0 dGetFrameInfo dDecompress dpos Hd file (concat bufs) Hf).
+    exact (Hcb po bufs file Hw Hbb).
+  Qed.
+End RoundTripOpen.
+
+(* ================================================================== the compressor writes byte strings *)
+Section Bytes.
+  Variable blk : nat -> list byte -> list byte -> option (list byte).
+  (* typing fact of the block compressors: they write bytes *)
+  Definition blk_bytes : Prop := forall n h s c, blk n h s = Some c -> bytes_ok c = true.
+  Hypothesis Hbb : blk_bytes.
+
+  Lemma byte_mod v : byte_ok (v mod 256) = true.
+  Proof. unfold byte_ok. pose proof (Z.mod_pos_bound v 256 ltac:(lia)). apply andb_true_iff. split; [apply Z.leb_le|apply Z.ltb_lt]; lia. Qed.
+  Lemma bok_app a b : bytes_ok (a ++ b) = bytes_ok a && bytes_ok b.
+  Proof. unfold bytes_ok. apply forallb_app. Qed.
+  Lemma bok_app2 a b : bytes_ok a = true -> bytes_ok b = true -> bytes_ok (a ++ b) = true.
+  Proof. intros A B. rewrite bok_app, A, B. reflexivity. Qed.
+  Lemma writeLE32_ok v : bytes_ok (writeLE32 v) = true.
+  Proof. unfold writeLE32, bytes_ok. cbn [forallb]. rewrite !byte_mod. reflexivity. Qed.
+  Lemma writeLE64_ok v : bytes_ok (writeLE64 v) = true.
+  Proof. unfold writeLE64, bytes_ok. cbn [forallb]. rewrite !byte_mod. reflexivity. Qed.
+  Lemma bok_firstn n (l : list byte) : bytes_ok l = true -> bytes_ok (firstn n l) = true.
+  Proof. intro H. rewrite <- (firstn_skipn n l), bok_app in H. apply andb_prop in H. apply H. Qed.
+  Lemma bok_skipn n (l : list byte) : bytes_ok l = true -> bytes_ok (skipn n l) = true.
+  Proof. intro H. rewrite <- (firstn_skipn n l), bok_app in H. apply andb_prop in H. apply H. Qed.
+
+  Lemma frame_header_ok p : bytes_ok (frame_header p) = true.
+  Proof.
+    unfold frame_header, descriptor. repeat apply bok_app2; try apply writeLE32_ok.
+    - unfold bytes_ok, flg_byte, bd_byte. cbn [forallb]. rewrite !byte_mod. reflexivity.
+    - destruct (negb (p_contentSize p =? 0)); [apply writeLE64_ok|reflexivity].
+    - destruct (negb (p_dictID p =? 0)); [apply writeLE32_ok|reflexivity].
+    - unfold bytes_ok, headerChecksum. cbn [forallb]. rewrite byte_mod. reflexivity.
+  Qed.
+
+  Lemma makeBlock_ok c src f : bytes_ok src = true -> bytes_ok (fst (makeBlock blk c src f)) = true.
+  Proof.
+    intro Hs. unfold makeBlock. cbn [fst].
+    set (cres := match f with CF_none => None | _ => blk (c_nblk c) (history c f) src end).
+    assert (Hc : forall cb, cres = Some cb -> bytes_ok cb = true).
+    { intros cb E. unfold cres in E. destruct f; try discriminate E; eapply Hbb; exact E. }
+    repeat apply bok_app2.
+    - destruct (_ || _); apply writeLE32_ok.
+    - destruct (_ || _); [exact Hs|]. destruct cres as [cb|]; [apply Hc; reflexivity|reflexivity].
+    - destruct (negb _); [apply writeLE32_ok|reflexivity].
+  Qed.
+
+  Lemma flush_ok c o c1 : bytes_ok (c_tmp c) = true -> flush blk c = (Out o, c1) -> bytes_ok o = true /\ bytes_ok (c_tmp c1) = true.
+  Proof.
+    intros Ht. unfold flush. destruct (len (c_tmp c) =? 0); [intro H; inversion H; subst; auto|].
+    destruct (negb (c_stage c =? 1)); [discriminate|].
+    destruct (makeBlock blk c (c_tmp c) _) as [om cm] eqn:EM.
+    match type of EM with makeBlock blk c ?x ?ff = _ => pose proof (makeBlock_ok c x ff Ht) as K end.
+    rewrite EM in K. cbn [fst] in K. intro H. inversion H; subst. split; [exact K|reflexivity].
+  Qed.
+
+  Lemma fullBlocks_ok : forall fuel c f bs src o c' r,
+    bytes_ok src = true -> fullBlocks blk fuel c f bs src = Some (o, c', r) ->
+    bytes_ok o = true /\ bytes_ok r = true /\ c_tmp c' = c_tmp c.
+  Proof.
+    induction fuel as [|k IH]; intros c f bs src o c' r Hs H; [discriminate H|]. cbn [fullBlocks] in H.
+    destruct (bs <=? len src); [|inversion H; subst; auto].
+    destruct (makeBlock blk c (firstn (Z.to_nat bs) src) f) as [o1 c1] eqn:EM.
+    pose proof (makeBlock_ok c (firstn (Z.to_nat bs) src) f (bok_firstn _ _ Hs)) as K. rewrite EM in K. cbn [fst] in K.
+    assert (Kt : c_tmp c1 = c_tmp c) by (unfold makeBlock in EM; inversion EM; reflexivity).
+    destruct (fullBlocks blk k c1 f bs (skipn (Z.to_nat bs) src)) as [[[o2 c2] r2]|] eqn:EF; [|discriminate H].
+    inversion H; subst. destruct (IH _ _ _ _ _ _ _ (bok_skipn _ _ Hs) EF) as (A & B & C).
+    split; [apply bok_app2; assumption|]. split; [exact B|congruence].
+  Qed.
+
+  Lemma update_ok c src bc o c' :
+    bytes_ok (c_tmp c) = true -> bytes_ok src = true -> compressUpdateImpl blk c src bc = (Out o, c') ->
+    bytes_ok o = true /\ bytes_ok (c_tmp c') = true.
+  Proof.
+    intros Ht Hs H. unfold compressUpdateImpl in H. cbv zeta in H.
+    destruct (negb (c_stage c =? 1)); [discriminate H|].
+    assert (S0 : forall o0 c0, bytes_ok o0 = true -> bytes_ok (c_tmp c0) = true -> c_prefs c0 = c_prefs c \/ True ->
+       (let '(o1, c1, rest1) :=
+          if 0 <? len (c_tmp c0)
+          then if len src <? c_maxBlock c - len (c_tmp c0) then ([], set_tmp c0 (c_tmp c0 ++ src), [])
+               else let '(o, c'0) := makeBlock blk c0 (c_tmp c0 ++ firstn (Z.to_nat (c_maxBlock c - len (c_tmp c0))) src)
+                                      (selectCompression (p_blockMode (c_prefs c)) (p_level (c_prefs c)) bc) in
+                    (o, set_tmp c'0 [], skipn (Z.to_nat (c_maxBlock c - len (c_tmp c0))) src)
+          else ([], c0, src) in
+        match fullBlocks blk (S (length rest1)) c1 (selectCompression (p_blockMode (c_prefs c)) (p_level (c_prefs c)) bc) (c_maxBlock c) rest1 with
+        | Some (o2, c2, rest2) =>
+            let '(o3, c3, rest3) :=
+              if negb (p_autoFlush (c_prefs c) =? 0) && (0 <? len rest2)
+              then let '(o, c'0) := makeBlock blk c2 rest2 (selectCompression (p_blockMode (c_prefs c)) (p_level (c_prefs c)) bc) in (o, c'0, [])
+              else ([], c2, rest2) in
+            (Out (o0 ++ o1 ++ o2 ++ o3),
+             set_input (if 0 <? len rest3 then set_tmp c3 rest3 else c3)
+               (if p_ccrc (c_prefs c) =? FC_contentChecksumEnabled
+                then c_xxh (if 0 <? len rest3 then set_tmp c3 rest3 else c3) ++ src
+                else c_xxh (if 0 <? len rest3 then set_tmp c3 rest3 else c3))
+               ((c_totalIn (if 0 <? len rest3 then set_tmp c3 rest3 else c3) + len src) mod U64))
+        | None => (OutOfFuel, c1)
+        end) = (Out o, c') -> bytes_ok o = true /\ bytes_ok (c_tmp c') = true).
+    { intros o0 c0 Ho0 Ht0 _.
+      assert (E1 : exists o1 c1 rest1,
+         (if 0 <? len (c_tmp c0)
+          then if len src <? c_maxBlock c - len (c_tmp c0) then ([], set_tmp c0 (c_tmp c0 ++ src), [])
+               else let '(o, c'0) := makeBlock blk c0 (c_tmp c0 ++ firstn (Z.to_nat (c_maxBlock c - len (c_tmp c0))) src)
+                                      (selectCompression (p_blockMode (c_prefs c)) (p_level (c_prefs c)) bc) in
+                    (o, set_tmp c'0 [], skipn (Z.to_nat (c_maxBlock c - len (c_tmp c0))) src)
+          else ([], c0, src)) = (o1, c1, rest1) /\ bytes_ok o1 = true /\ bytes_ok (c_tmp c1) = true /\ bytes_ok rest1 = true).
+      { destruct (0 <? len (c_tmp c0)); [|eexists _, _, _; split; [reflexivity|auto]].
+        destruct (len src <? c_maxBlock c - len (c_tmp c0)).
+        - eexists _, _, _; split; [reflexivity|]. cbn. split; [reflexivity|]. split; [apply bok_app2; assumption|reflexivity].
+        - destruct (makeBlock blk c0 _ _) as [om cm] eqn:EM. eexists _, _, _; split; [reflexivity|].
+          match type of EM with makeBlock blk c0 ?x ?ff = _ => pose proof (makeBlock_ok c0 x ff (bok_app2 _ _ Ht0 (bok_firstn _ _ Hs))) as K end.
+          rewrite EM in K. cbn [fst] in K. cbn. split; [exact K|]. split; [reflexivity|apply bok_skipn; exact Hs]. }
+      destruct E1 as (o1 & c1 & rest1 & -> & Ho1 & Ht1 & Hr1).
+      destruct (fullBlocks blk _ c1 _ _ rest1) as [[[o2 c2] rest2]|] eqn:EF; [|discriminate].
+      destruct (fullBlocks_ok _ _ _ _ _ _ _ _ Hr1 EF) as (Ho2 & Hr2 & Ht2).
+      assert (E3 : exists o3 c3 rest3,
+        (if negb (p_autoFlush (c_prefs c) =? 0) && (0 <? len rest2)
+         then let '(o, c'0) := makeBlock blk c2 rest2 (selectCompression (p_blockMode (c_prefs c)) (p_level (c_prefs c)) bc) in (o, c'0, [])
+         else ([], c2, rest2)) = (o3, c3, rest3) /\ bytes_ok o3 = true /\ c_tmp c3 = c_tmp c2 /\ bytes_ok rest3 = true).
+      { destruct (negb (p_autoFlush (c_prefs c) =? 0) && (0 <? len rest2)); [|eexists _, _, _; split; [reflexivity|auto]].
+        destruct (makeBlock blk c2 rest2 _) as [om cm] eqn:EM. eexists _, _, _; split; [reflexivity|].
+        match type of EM with makeBlock blk c2 ?x ?ff = _ => pose proof (makeBlock_ok c2 x ff Hr2) as K end.
+        rewrite EM in K. cbn [fst] in K. split; [exact K|]. split; [unfold makeBlock in EM; inversion EM; reflexivity|reflexivity]. }
+      destruct E3 as (o3 & c3 & rest3 & -> & Ho3 & Ht3 & Hr3).
+      intro H1. inversion H1; subst o c'. split; [repeat apply bok_app2; assumption|].
+      cbn [set_input c_tmp]. destruct (0 <? len rest3); cbn [set_tmp c_tmp]; [exact Hr3|]. congruence. }
+    destruct (negb (c_mode c =? bc)).
+    - destruct (flush blk c) as [rf cf] eqn:Ef. destruct rf as [e|of|]; try discriminate H.
+      destruct (flush_ok c of cf Ht Ef) as [A B]. apply (S0 of (set_mode cf bc) A B (or_intror I)). exact H.
+    - apply (S0 [] c eq_refl Ht (or_intror I)). exact H.
+  Qed.
+End Bytes.
+
+(* a session in which every LZ4F_write succeeded writes bytes, for any compressor whose calls do *)
+Section WritesBytes.
+  Variable cst : Type.
+  Variable cst0 : cst.
+  Variable cBegin : cst -> option SZ.prefs -> Z -> fres (list byte) * cst.
+  Variable cUpdate : cst -> list byte -> Z -> fres (list byte) * cst.
+  Variable cEnd : cst -> Z -> fres (list byte) * cst.
+  Variable T : cst -> Prop.
+  Hypothesis HB : forall po cap h c1, cBegin cst0 po cap = (FOk h, c1) -> bytes_ok h = true /\ T c1.
+  Hypothesis HU : forall c src cap o c', T c -> bytes_ok src = true -> cUpdate c src cap = (FOk o, c') -> bytes_ok o = true /\ T c'.
+  Hypothesis HE : forall c cap o c', T c -> cEnd c cap = (FOk o, c') -> bytes_ok o = true.
+
+  Lemma bok2 a b : bytes_ok a = true -> bytes_ok b = true -> bytes_ok (a ++ b) = true.
+  Proof. intros A B. unfold bytes_ok. rewrite forallb_app. apply andb_true_intro. split; assumption. Qed.
+  Lemma bok_split a b : bytes_ok (a ++ b) = true -> bytes_ok a = true /\ bytes_ok b = true.
+  Proof. unfold bytes_ok. rewrite forallb_app. intro H. apply andb_prop in H. exact H. Qed.
+
+  Lemma write_loop_bytes : forall fuel w file p w' file',
+    write_loop cst cUpdate fuel w file p = (FOk tt, w', file') ->
+    T (w_c cst w) -> bytes_ok file = true -> bytes_ok p = true ->
+    bytes_ok file' = true /\ T (w_c cst w') /\ w_err cst w' = w_err cst w.
+  Proof.
+    induction fuel as [|f IH]; intros w file p w' file' H Ht Hf Hp.
+    - destruct p; cbn in H; [inversion H; subst; auto|discriminate H].
+    - destruct p as [|b p']; [cbn in H; inversion H; subst; auto|].
+      cbn [write_loop] in H. set (pp := b :: p') in *.
+      set (chunk := if Nat.ltb (w_maxWrite cst w) (length pp) then w_maxWrite cst w else length pp) in *.
+      rewrite <- (firstn_skipn chunk pp) in Hp. apply bok_split in Hp. destruct Hp as [Hp1 Hp2].
+      destruct (cUpdate (w_c cst w) (firstn chunk pp) (w_dstMax cst w)) as [[o| |] c] eqn:EU; try discriminate H.
+      destruct (HU _ _ _ _ _ Ht Hp1 EU) as [Ho Hc].
+      destruct (IH _ _ _ _ _ H Hc (bok2 _ _ Hf Ho) Hp2) as (A & B & C). auto.
+  Qed.
+
+  Lemma write_all_bytes : forall bufs w file w' file',
+    write_all cst cUpdate w file bufs = (map (fun b => FOk (length b)) bufs, w', file') ->
+    T (w_c cst w) -> bytes_ok file = true -> bytes_ok (concat bufs) = true ->
+    bytes_ok file' = true /\ T (w_c cst w') /\ w_err cst w' = w_err cst w.
+  Proof.
+    induction bufs as [|b r IH]; intros w file w' file' H Ht Hf Hb.
+    - cbn in H. inversion H; subst. auto.
+    - cbn [write_all map concat] in H, Hb. apply bok_split in Hb. destruct Hb as [Hb1 Hb2].
+      unfold fwrite_lz4 in H.
+      destruct (write_loop cst cUpdate (length b) w file b) as [[rr w1] f1] eqn:EL.
+      destruct rr as [u| |]; try (destruct (write_all cst cUpdate w1 f1 r) as [[xs w2] f2]; discriminate H).
+      destruct u.
+      destruct (write_loop_bytes _ _ _ _ _ _ EL Ht Hf Hb1) as (A & B & C).
+      destruct (write_all cst cUpdate w1 f1 r) as [[xs w2] f2] eqn:EA. inversion H; subst.
+      destruct (IH _ _ _ _ EA B A Hb2) as (A' & B' & C'). split; [exact A'|]. split; [exact B'|congruence].
+  Qed.
+
+  Lemma writes_bytes : comp_writes_bytes cst cst0 cBegin cUpdate cEnd.
+  Proof.
+    intros po bufs file H Hb. unfold write_session, writeOpen in H.
+    destruct (match po with Some p => bufsize_of_bsid (SZ.p_bsid p) | None => Some (Z.to_nat (64 * 1024)) end) as [mw|]; [|discriminate H].
+    destruct (cBegin cst0 po LZ4F_HEADER_SIZE_MAX) as [[hdr| |] c1] eqn:EB; try discriminate H.
+    destruct (HB _ _ _ _ EB) as [Hh Ht1].
+    destruct (write_all cst cUpdate _ ([] ++ hdr) bufs) as [[xs w1] f1] eqn:EA.
+    unfold writeClose in H.
+    destruct (w_err cst w1) as [e|] eqn:Eerr.
+    - inversion H; subst xs file.
+      destruct (write_all_bytes _ _ _ _ _ EA Ht1 Hh Hb) as (A & B & C). cbn in C. congruence.
+    - destruct (cEnd (w_c cst w1) (w_dstMax cst w1)) as [[tail| |] c3] eqn:EE; try discriminate H.
+      inversion H; subst xs file.
+      destruct (write_all_bytes _ _ _ _ _ EA Ht1 Hh Hb) as (A & B & C).
+      apply bok2; [exact A|]. eapply HE; eauto.
+  Qed.
+End WritesBytes.
+
+(* ================================================================== C20 with both contracts discharged *)
+Section Final.
+  Variable blk : nat -> list byte -> list byte -> option (list byte).
+  Hypothesis Hblk : blk_contract strict_valid blk.      (* C01/C06/C11/C12: what a block compressor writes decodes to its input *)
+  Hypothesis Hbb : blk_bytes blk.                        (* ... and is a byte string *)
+
+  Definition tmp_bytes (c : cctx) : Prop := bytes_ok (c_tmp c) = true.
+
+  Lemma end_ok c o c' : tmp_bytes c -> compressEnd blk c = (Out o, c') -> bytes_ok o = true.
+  Proof.
+    intros Ht. unfold compressEnd. destruct (flush blk c) as [rf cf] eqn:Ef.
+    destruct rf as [e|of|]; try discriminate.
+    destruct (flush_ok blk Hbb c of cf Ht Ef) as [A _].
+    destruct (negb _ && negb _); [discriminate|]. intro H. inversion H; subst.
+    repeat apply bok_app2; try exact A; try apply writeLE32_ok.
+    destruct (p_ccrc _ =? _); [apply writeLE32_ok|reflexivity].
+  Qed.
+
+  Lemma fc_HB : forall po cap h c1, fc_begin cctx_zero po cap = (FOk h, c1) -> bytes_ok h = true /\ tmp_bytes c1.
+  Proof.
+    intros po cap h c1. unfold fc_begin. destruct (cap <? maxFHSize); [discriminate|].
+    unfold compressBegin, compressBegin_internal. destruct (isError _); [discriminate|]. cbn [lift].
+    intro H. inversion H; subst. split; [apply frame_header_ok|reflexivity].
+  Qed.
+  Lemma fc_HU : forall c src cap o c', tmp_bytes c -> bytes_ok src = true ->
+    fc_update blk c src cap = (FOk o, c') -> bytes_ok o = true /\ tmp_bytes c'.
+  Proof.
+    intros c src cap o c' Ht Hs. unfold fc_update.
+    assert (K : lift (compressUpdate blk c src) = (FOk o, c') -> bytes_ok o = true /\ tmp_bytes c').
+    { unfold compressUpdate. destruct (compressUpdateImpl blk c src FC_LZ4B_COMPRESSED) as [[e|oo|] cc] eqn:E; try discriminate.
+      cbn [lift]. intro H. inversion H; subst. exact (update_ok blk Hbb c src _ o c' Ht Hs E). }
+    destruct (negb (c_stage c =? 1)); [exact K|]. destruct (cap <? _); [discriminate|exact K].
+  Qed.
+  Lemma fc_HE : forall c cap o c', tmp_bytes c -> fc_end blk c cap = (FOk o, c') -> bytes_ok o = true.
+  Proof.
+    intros c cap o c' Ht. unfold fc_end.
+    assert (K : lift (compressEnd blk c) = (FOk o, c') -> bytes_ok o = true).
+    { destruct (compressEnd blk c) as [[e|oo|] cc] eqn:E; try discriminate. cbn [lift]. intro H. inversion H; subst. exact (end_ok c o c' Ht E). }
+    destruct (_ && _ && _); [discriminate|].
+    destruct (flush blk c) as [[e|of|] cf]; try exact K.
+    destruct (cap - len of <? 4); [discriminate|]. destruct (_ && _); [discriminate|exact K].
+  Qed.
+
+  Theorem fc_writes_bytes : comp_writes_bytes cctx cctx_zero fc_begin (fc_update blk) (fc_end blk).
+  Proof. exact (writes_bytes cctx cctx_zero fc_begin (fc_update blk) (fc_end blk) tmp_bytes fc_HB fc_HU fc_HE). Qed.
+
+  (* LZ4F_writeOpen / LZ4F_write* / LZ4F_writeClose through the model of lz4frame.c's compressor, then
+     LZ4F_readOpen / LZ4F_read* through the model of its decoder: the content comes back, for every
+     content (bytes, below 2^64), every valid preference set, all write sizes and all read sizes *)
+  Theorem roundtrip_discharged : forall po mw bufs sizes junk,
+    maxWrite_of po = Some mw -> FileProofs.csize_ok po (concat bufs) -> prefs_wf po ->
+    Z.of_nat (length (concat bufs)) < U64 -> bytes_ok (concat bufs) = true ->
+    exists file,
+      write_session cctx cctx_zero fc_begin (fc_update blk) (fc_end blk) po bufs
+        = (FOk (map (fun b => FOk (length b)) bufs), file) /\
+      frame_ok file (concat bufs) /\
+      read_session FrameD.dstate FrameD.dctx_init fd_info fd_dec true junk file sizes = FOk (chop (concat bufs) sizes).
+  Proof.
+    exact (roundtrip_open2 cctx cctx_zero fc_begin (fc_update blk) (fc_end blk)
+             FrameD.dstate FrameD.dctx_init fd_info fd_dec fd_pos
+             (fc_comp_contract_open blk Hblk) fc_writes_bytes fd_dec_contract_open).
+  Qed.
+End Final.
